@@ -20,7 +20,7 @@ import numpy as np
 import core
 import gen
 
-PROOF_MODULES = ["UnytProofs.C09"]
+PROOF_MODULES = ["UnytProofs.C09", "UnytProofs.C09Units"]
 EPS = 2.0 ** -52
 LAW_RTOL = 2.0 ** -36  # inverse / path / formula laws on the real code (several roundings + pow)
 SAME_RTOL = 2.0 ** -44  # entry points and in-place vs copy: the same arithmetic up to re-association
@@ -34,7 +34,7 @@ UNIT_POOL = {
     "rate": ["Hz", "kHz", "GHz", "THz", "1/s", "1/hr", "1/ms", "1/yr", "min**-1"],
     "spatial_frequency": ["1/m", "1/cm", "m**-1", "1/angstrom", "1/km", "1/nm", "1/ft", "1/pc"],
     "velocity": ["m/s", "cm/s", "km/s", "km/hr", "mile/hr", "c", "pc/Myr", "AU/yr", "ft/s"],
-    "dimensionless": ["dimensionless", "", "percent"],
+    "dimensionless": ["dimensionless", "", "percent", "mol", "Zsun", "cm/m", "mmol"],
     "density": ["kg/m**3", "g/cm**3", "Msun/pc**3", "g/L", "lb/ft**3", "mg/mL", "amu/cm**3", "Msun/kpc**3"],
     "number_density": ["1/m**3", "cm**-3", "1/pc**3", "1/L", "1/mm**3", "1/ft**3", "km**-3"],
     "flux": ["W/m**2", "erg/(s*cm**2)", "kW/m**2", "kg/s**3", "g/s**3", "Lsun/pc**2", "mW/cm**2", "J/(hr*ft**2)"],
@@ -269,6 +269,190 @@ class Sweep:
         kws = ";".join(f"{k}={core.f2b(v)}" for k, v in kw.items())
         self.mlines.append("\t".join(["c09.convert", mode, eq if eq is not None else "-"] + fa + fb_ + [str(core.f2b(xv)), kws]))
         self.mexpect.append((tag, expect, tol))
+
+    # ---- the unit-carrying run of every chain (correspondence with `Trace.runU`) -------------
+    def chains(self):
+        """`cls(in_place=…)._convert` called directly on an input in some unit of the source
+        dimension: data, `base_value` and dimensions of what it returns (copy) / leaves in the
+        array (in place), against the model's call-by-call unit-carrying run of the regenerated chain"""
+        from unyt import Unit, unyt_array
+
+        chk, rng = self.chk, self.rng
+        self.clines, self.cexpect = [], []
+        extra = 2 if self.tier == "quick" else 10
+        for eq, cls in self.reg.items():
+            accepted = self.param_names(cls)
+            for da, db in itertools.permutations(list(cls._dims), 2):
+                a = self.dn(da)
+                pa = self.pool(a, da)
+                if not pa:
+                    continue
+                units = [pa[0]] + [rng.choice(pa) for _ in range(extra)]
+                cu = compound_unit(rng, da)
+                if cu is not None:
+                    units.append(cu)
+                if a == "dimensionless":
+                    units = list(dict.fromkeys(units + pa))  # every scaled spelling of a pure number
+                for ua in units:
+                    kw = {}
+                    if accepted and rng.random() < 0.5:
+                        kw = {p: round(rng.uniform(0.5, 2.4), 3) for p in accepted if rng.random() < 0.7}
+                    kws = ";".join(f"{k}={core.f2b(v)}" for k, v in kw.items())
+                    try:
+                        scale = float(Unit(ua).base_value)
+                    except Exception:
+                        continue
+                    val = values_for(rng, eq, a, scale, self.C, self.tier, n=1)[0]
+                    for mode in ("copy", "inplace"):
+                        x = unyt_array(np.array([val], dtype="float64"), ua)
+                        try:
+                            r = cls(in_place=(mode == "inplace"))._convert(x, db, **kw)
+                            res = r if mode == "copy" else x
+                            live = (float(np.asarray(res.d).ravel()[0]), float(res.units.base_value), gen.dim_vec(res.units.dimensions))
+                        except Exception as e:
+                            live = "err:" + core.exc_name(e)
+                        chk.case(f"chain|{eq}|{gen.dim_vec(da)}->{gen.dim_vec(db)}|{ua}|{mode}|{sorted(kw)}", None)
+                        chk.count("chain:" + ("returned" if not isinstance(live, str) else live))
+                        self.clines.append("\t".join(["c09.chain", eq, mode, gen.dim_vec(da), gen.dim_vec(db), str(core.f2b(val)),
+                                                      str(core.f2b(scale)), kws]))
+                        tol = LAW_RTOL * lorentz_cond(eq, a, val * scale, self.C)
+                        self.cexpect.append((f"{eq} {a}->{self.dn(db)} [{ua}] {mode} {kw}", live, tol))
+
+    def check_chains(self, model):
+        chk = self.chk
+        if not self.clines:
+            return
+        try:
+            replies = model.ask(self.clines)
+        except Exception as e:
+            chk.disagree("driver", repr(e))
+            return
+        for rep, (tag, live, tol) in zip(replies, self.cexpect):
+            if isinstance(live, str):
+                if rep[0] == "ok":
+                    chk.disagree("c09.chain", f"{tag}: model {rep}, _convert raised {live}")
+                continue
+            if rep[0] != "ok":
+                chk.disagree("c09.chain", f"{tag}: model {rep}, _convert gave data {live[0]!r} scale {live[1]!r}")
+                continue
+            md, ms, mdim = core.b2f(rep[1]), core.b2f(rep[2]), rep[3]
+            if mdim != live[2]:
+                chk.disagree("c09.chain", f"{tag}: model dimension {mdim}, _convert's result has {live[2]}")
+                continue
+            msi, lsi = md * ms, live[0] * live[1]
+            if not (math.isfinite(lsi) and math.isfinite(msi) and relerr(msi, lsi) <= tol):
+                chk.disagree("c09.chain", f"{tag}: SI magnitude model {msi!r} (data {md!r} x scale {ms!r}), _convert {lsi!r} "
+                                          f"(data {live[0]!r} x scale {live[1]!r}), tolerance {tol:.3g}")
+                continue
+            same = relerr(ms, live[1]) <= 1e-12
+            chk.count("chain-split:" + ("same" if same else "differs"))
+
+    # ---- histories: the same unit pair asked repeatedly with other values / keywords -----------
+    def history(self):
+        """a conversion is a function of (value, units, keywords) alone: on one (equivalence, input
+        unit, target unit) a sequence of requests with different values, different keyword
+        arguments, arrays then 0-d quantities, copying then in-place forms; every answer must be
+        the defining formula.  The replay is the whole sequence (a remembered factor, branch,
+        keyword or instance only shows after an earlier call)."""
+        from unyt import Unit, unyt_array, unyt_quantity
+
+        chk, rng, C = self.chk, self.rng, self.C
+        for eq, cls in self.reg.items():
+            accepted = self.param_names(cls)
+            pairs = list(itertools.permutations(list(cls._dims), 2))
+            if self.tier == "quick" and len(pairs) > 4:
+                pairs = rng.sample(pairs, 4)
+            for da, db in pairs:
+                a, b = self.dn(da), self.dn(db)
+                ref = reference(eq, a, b)
+                pa, pb = self.pool(a, da), self.pool(b, db)
+                if ref is None or not pa or not pb:
+                    continue
+                for ua, ub in [(pa[0], pb[0]), (rng.choice(pa), rng.choice(pb))]:
+                    sa, sb = float(Unit(ua).base_value), float(Unit(ub).base_value)
+                    kw1 = {}
+                    kw2 = {p: {"mu": round(rng.uniform(0.5, 2.4), 3), "gamma": rng.choice([1.4, 1.1, 2.0])}.get(p, 1.5) for p in accepted}
+                    v1 = values_for(rng, eq, a, sa, C, self.tier)
+                    v2 = values_for(rng, eq, a, sa, C, self.tier)
+                    # proportional first (what a remembered factor would be learnt from), then not
+                    steps = [("to_equivalent", [v1[0], 2.0 * v1[0], 4.0 * v1[0]] if eq != "lorentz" else v1, kw1),
+                             ("to_equivalent", v2, kw1), ("to", v1, kw2), ("to_equivalent", v2[:1], kw2),
+                             ("quantity", v2[1:2], kw1), ("convert_to_equivalent", v1, kw1), ("to_value", v2, kw1)]
+                    src = ""
+                    bad = None
+                    for i, (entry, vals, kw) in enumerate(steps):
+                        mu, ga = kw.get("mu", 0.6), kw.get("gamma", 5.0 / 3.0)
+                        kws = kw_src(kw)
+                        x_si = np.array(vals, dtype="float64") * sa
+                        with np.errstate(all="ignore"):
+                            want_si = np.asarray(ref(x_si, C, mu, ga), dtype="float64")
+                        tol = LAW_RTOL * lorentz_cond(eq, a, x_si, C)
+                        if not (np.all(np.isfinite(want_si)) and math.isfinite(tol)):
+                            continue
+                        if entry == "quantity":
+                            call = f"x = unyt_quantity({vals[0]!r}, {ua!r}); r = x.to_equivalent({ub!r}, {eq!r}{kws}); got = np.atleast_1d(r.d)\n"
+                        elif entry == "convert_to_equivalent":
+                            call = f"x = unyt_array(np.array({list(vals)!r}), {ua!r}); x.convert_to_equivalent({ub!r}, {eq!r}{kws}); got = x.d\n"
+                        elif entry == "to_value":
+                            call = f"x = unyt_array(np.array({list(vals)!r}), {ua!r}); got = x.to_value({ub!r}, {eq!r}{kws})\n"
+                        else:
+                            call = f"x = unyt_array(np.array({list(vals)!r}), {ua!r}); r = x.{entry}({ub!r}, {eq!r}{kws}); got = r.d\n"
+                        src += f"_step = 'step {i}: {entry}'\n" + call + f"assert relerr(np.asarray(got) * {sb!r}, np.array({want_si.tolist()!r})) <= {tol!r}, ('step {i}: {entry}', got)\n"
+                        chk.case(f"history|{eq}|{a}->{b}|{ua}|{ub}|{i}", None)
+                    env = {}
+                    try:
+                        exec(compile(snippet(covered_guard(eq, ua, ub) + src), "<history>", "exec"), env)
+                        chk.count("history:consistent")
+                    except SystemExit:
+                        chk.count("history:not-covered")
+                    except AssertionError:
+                        step = str(env.get("_step", "?"))
+                        entry = step.split(": ")[-1]
+                        chk.fail(f"history|{eq}|{a}->{b}|{entry}", f"after earlier requests on the same units, {step} differs from the defining formula",
+                                 {"python": snippet(covered_guard(eq, ua, ub) + src), "equivalence": eq, "units": [ua, ub]})
+                    except Exception as e:
+                        chk.fail(f"history|{eq}|{a}->{b}|raise|{core.exc_name(e)}", f"a request in a sequence on the same units raised {e!r}",
+                                 {"python": snippet(covered_guard(eq, ua, ub) + src), "equivalence": eq, "units": [ua, ub]})
+
+    # ---- integer and single-precision inputs -------------------------------------------------
+    def dtypes(self):
+        """the formula clause for inputs that are not float64: small whole numbers held as int64
+        (copying and in-place forms), int32 and float32 (copying forms).  A ufunc that is exact on
+        floats but truncates on integers (`reciprocal`, `floor_divide`, `power` with a negative
+        exponent, an `out=` into the integer buffer) only shows here."""
+        from unyt import Unit, unyt_array
+
+        chk, C = self.chk, self.C
+        for eq, cls in self.reg.items():
+            for da, db in itertools.permutations(list(cls._dims), 2):
+                a, b = self.dn(da), self.dn(db)
+                ref = reference(eq, a, b)
+                pa, pb = self.pool(a, da), self.pool(b, db)
+                if ref is None or not pa or not pb:
+                    continue
+                ua, ub = pa[0], pb[0]
+                sa, sb = float(Unit(ua).base_value), float(Unit(ub).base_value)
+                vals = [100000000, 200000000, 290000000] if (eq == "lorentz" and a == "velocity") else [2, 3, 50]
+                with np.errstate(all="ignore"):
+                    want_si = np.asarray(ref(np.array(vals, dtype="float64") * sa, C, 0.6, 5.0 / 3.0), dtype="float64")
+                for dt, mode in (("int64", "copy"), ("int64", "inplace"), ("int32", "copy"), ("float32", "copy")):
+                    tol = (LAW_RTOL if dt == "int64" else 2.0 ** -18) * lorentz_cond(eq, a, np.array(vals, dtype="float64") * sa, C)
+                    call = (f"r = x.to_equivalent({ub!r}, {eq!r})" if mode == "copy" else f"x.convert_to_equivalent({ub!r}, {eq!r}); r = x")
+                    src = (f"x = unyt_array(np.array({vals!r}, dtype={dt!r}), {ua!r})\n{call}\n"
+                           f"assert r.units == Unit({ub!r}), r.units\n"
+                           f"assert relerr(np.asarray(r.d, dtype='float64') * {sb!r}, np.array({want_si.tolist()!r})) <= {tol!r}, r\n")
+                    chk.case(f"dtype|{eq}|{a}->{b}|{dt}|{mode}", None)
+                    try:
+                        exec(compile(snippet(covered_guard(eq, ua, ub) + src), "<dtypes>", "exec"), {})
+                        chk.count("dtype:" + dt + ":ok")
+                    except SystemExit:
+                        chk.count("dtype:not-covered")
+                    except AssertionError:
+                        chk.fail(f"dtype|{eq}|{a}->{b}|{dt}|{mode}", f"{dt} input ({mode}): value or unit differs from the defining formula",
+                                 {"python": snippet(covered_guard(eq, ua, ub) + src), "equivalence": eq, "units": [ua, ub]})
+                    except Exception as e:
+                        chk.fail(f"dtype|{eq}|{a}->{b}|{dt}|{mode}|raise|{core.exc_name(e)}", f"{dt} input ({mode}) raised {e!r}",
+                                 {"python": snippet(covered_guard(eq, ua, ub) + src), "equivalence": eq, "units": [ua, ub]})
 
     # ---- covered requests ---------------------------------------------------------------
     def covered(self, n_units, with_quantity=True):
@@ -961,6 +1145,11 @@ def run(tier, seed):
     sw.reducible_inputs()
     sw.lorentz_endpoints()
     sw.has_equivalent()
+    sw.chains()
+    sw.history()
+    sw.dtypes()
+    if model is not None:
+        sw.check_chains(model)
 
     # ---- correspondence: the model's numbers and outcomes ------------------------------------
     if model is not None and sw.mlines:
